@@ -27,7 +27,7 @@ GStep ==
     \/ \E t \in TxIds : \E m \in ModesFor(t) : \E pf \in PolFs({t} \cup Waiters({t}, {})) :
           Submit(t, m, pf) /\ Log(OpRec("Submit", t, m, 0, <<>>))
     \/ \E pf \in PolFs(DOMAIN orph) :
-          \/ Idle /\ obs.fresh /\ \E k \in 0..Len(obs.lst) :
+          \/ Idle /\ obs.fresh /\ \E k \in 0..Len(Assemble(pool, obs.lst)) :
                 BlockMined(SubSeq(obs.lst, 1, k), pf) /\ Log(OpRec("MineListing", 0, "", k, <<>>))
           \/ \E s \in ValidSeqs(utxo, Height + 1, MaxFgn) :
                 BlockMined(s, pf) /\ Log(OpRec("MineForeign", 0, "", 0, s))
